@@ -2,7 +2,7 @@
 from verif import Case
 from gen_util import *
 from srp_cases import *
-import pyref, pyhdr, struct
+import pyref, pyhdr, struct, re
 
 MODULES = ["WowSrp.Props.C14", "WowSrp.Props.Source.Facade", "WowSrp.Props.Source.StripRule", "WowSrp.Props.Source.Glue.Vanilla", "WowSrp.Props.Source.Glue.Tbc", "WowSrp.Props.Source.Glue.Wrath", "WowSrp.Props.Source.Glue.Srp", "WowSrp.Props.Source.Shape.SrpApi"]
 THEOREMS = ["C14_server_register", "C14_server_login", "C14_server_login_api", "C14_server_secret", "C14_interleaved", "C14_into_proof", "C14_into_proof_only_documented", "C14_with_specific_private_key", "C14_server_reconnect", "C14_client", "C14_client_verify", "C14_client_reconnect", "C14_client_zero_secret", "C14_client_announced", "C14_client_announced_zero", "C14_world_server", "C14_world_client", "C14_world_wrath_server", "C14_world_wrath_client", "C14_rc4_new", "C14_headers_fresh", "C14_headerKeyOk_vanilla", "C14_headerKeyOk_tbc", "C14_headers", "C14_headers_history", "C14_headers_chunks", "C14_headers_facade", "C14_wrath_client", "C14_wrath_server", "C14_wrath_server_enc", "C14_wrath_history", "C14_source_facade_delegates", "C14_headers_facade_io", "C14_translated_strip_rule", "C14_source_glue_vanilla", "C14_source_glue_tbc", "C14_source_glue_wrath", "C14_source_glue_srp", "C14_source_shape_srpapi"]
@@ -101,7 +101,25 @@ def generate(rng, tier):
         cs.append(Case("hdr w c %s %s" % (K.hex(), " ".join(ops)), "wrath-client-read-ends-after-4", no_panic))
     return cs
 
+def in_domain(line):
+    """the property's own restrictions: client calls only with the built-in group; server calls only for a stored verifier that is not a
+    multiple of N (for those the server's own public key can be 0: the documented `into_proof` panic).  The generic relation layer
+    (tools/verif.py) replaces arguments by all-zero / 0xFF / reversed values and so leaves this domain; those lines are still compared
+    with the model and the reference, but "never a panic" is not claimed for them."""
+    a = line.partition(" | ")[0].split()
+    try:
+        if a[0] in ("cli.new", "cli.verify") and len(a) > 4 and (a[3] != "7" or a[4] != N_LE.hex()):
+            return False
+        if a[0] in ("srv.proof", "srv.server") and len(a) > 2 and re.fullmatch(r"[0-9a-f]{64}", a[2]):
+            if pyref.le(bytes.fromhex(a[2])) % N == 0:
+                return False
+    except Exception:
+        pass
+    return True
+
 def check_output(case, out):
+    if isinstance(case.meta, dict) and case.meta.get("sib") and not in_domain(case.line):
+        return None
     return no_panic(out)
 
 def nontrivial(case, out):
